@@ -154,11 +154,11 @@ def main():
             path = V.write_replay(pid, body)
             violations_out = [('found', path)]
 
-    for h in known_hits:
-        print('KNOWN-FINDING: property=%s %s [%s]' % (pid, h['what'], h['id']))
-    stale = [k for k in known if k['id'] not in [h['id'] for h in known_hits] and k.get('expect_every_run')]
-    for k in stale:
-        print('note: listed finding %s did not reproduce in this run' % k['id'], file=sys.stderr)
+    # every finding listed (open) for this property is reported on every run, with whether this run reproduced it
+    hit_ids = [h['id'] for h in known_hits]
+    for k in known:
+        print('KNOWN-FINDING: property=%s %s [%s; %s]' % (
+            pid, k['what'], k['id'], 'reproduced in this run' if k['id'] in hit_ids else 'not exercised by this run'))
 
     cov = dict(res.get('coverage', {}))
     cov['obligations'] = proof['obligations']
